@@ -52,8 +52,38 @@ def check(ctx):
         sl = arg_origins(c, 0)
         return any((x.name or "").endswith("Listener::incoming") for x in sl.calls) or any(v.endswith("Listener::incoming") for v in sl.via)
     nexts = [c for c in start.calls_to("core::iter::traits::iterator::Iterator::next") if over_incoming(c)]
-    ctx.floor(R3, "accept loops (Iterator::next on a listener's Incoming) in %s" % START, len(nexts), 2)
+    # the same loop written with internal iteration: `listener.incoming()[.filter_map(Result::ok)].for_each(|stream| ..)`
+    foreach = [c for c in start.calls if c.fn == "core::iter::traits::iterator::Iterator::for_each" and c.bb in start.live_blocks() and over_incoming(c)]
+    ctx.floor(R3, "accept loops (Iterator::next / for_each on a listener's Incoming) in %s" % START, len(nexts) + len(foreach), 2)
     spawn_closures = []
+    EARLY = ("map_while", "take_while", "take", "scan", "step_by", "fuse", "zip", "try_for_each", "try_fold")
+    BLOCKING_ = ("join", "recv", "recv_timeout", "lock", "wait", "wait_while", "wait_timeout", "sleep", "park", "read", "read_exact", "read_to_end", "read_line", "accept_hdr")
+    for fe in foreach:
+        chain = arg_origins(fe, 0)
+        early = sorted(v for v in chain.via if v.rsplit("::", 1)[-1] in EARLY)
+        ctx.require(R3, not early, fe.where(), "the listener's iterator is not cut short by an early-terminating adaptor (%s)" % [v.rsplit("::", 1)[-1] for v in early],
+                    [START, "loop-exit-adaptor"])
+        ctx.ok(R3, "for_each over %s: runs until the listener's iterator ends" % [v.rsplit("::", 1)[-1] for v in sorted(chain.via) if "Listener::incoming" in v])
+        for g in fe.gbodies:
+            cb = prog.body(g)
+            if cb is None or cb.kind != "Closure":
+                continue
+            srcs = [s_ for s_ in sources_in(cb)]
+            for s_ in srcs:
+                if s_.kind == "spawn":
+                    continue
+                ctx.fail(R2, s_.where(), "panic source in the accept loop: %s %s" % (s_.kind, s_.what), [START, "loop", s_.kind, s_.what])
+            blk = [c for c in cb.calls if c.bb in cb.live_blocks() and (c.name or "").rsplit("::", 1)[-1] in BLOCKING_
+                   and any(p_ in (c.name or "") for p_ in ("std::thread", "std::sync", "std::io", "crossbeam", "parking_lot", "openssl::ssl"))]
+            ctx.require(R4, not blk, blk[0].where() if blk else fe.where(), "the accept loop does not block on anything but the listener (%s)" % [c.name for c in blk], [START, "accept-loop-blocks"])
+            for c in cb.calls_to("*SslAcceptor::accept"):
+                ctx.fail(R4, c.where(), "TLS handshake performed inline in the accept loop", [START, "inline-accept"])
+            sp = [c for c in cb.calls_to("std::thread::functions::spawn", "std::thread::spawn") if c.bb in cb.live_blocks()]
+            if not sp:
+                ctx.fail(R4, fe.where(), "no thread::spawn in the accept loop: connections are handled inline", [START, "no-spawn", "for_each"])
+            for c in sp:
+                for g2 in c.gbodies:
+                    spawn_closures.append((c, g2))
     for nx in nexts:
         # the accepted connections are iterated directly: an adaptor that ends the iteration early (map_while/take_while/take/scan..)
         # turns the first failed accept into the end of the server
